@@ -55,6 +55,16 @@ def gen_repo(rng, portable=True, with_ignored=True, odd=False):
                     f(pd + '/files/' + name('2.0') + '/nested.patch')
             if rng.random() < 0.15:
                 f(pd + '/ChangeLog')
+            # (no random draws below: derived from what exists so far)
+            has_files = any(n['p'] == pd + '/files' for n in nodes)
+            if has_files and len(nodes) % 3 == 0:
+                # one file name both in the package directory and beneath files/
+                f(pd + '/README', {'t': 'package readme\n'})
+                f(pd + '/files/README', {'t': 'files readme\n'})
+            if len(nodes) % 5 == 0:
+                f(pd + '/.gitignore', {'t': '*.orig\n'})
+            elif has_files and len(nodes) % 5 == 1:
+                f(pd + '/files/.keep', {'t': ''})
     # special top-level directories
     if rng.random() < 0.9:
         d('profiles')
